@@ -301,6 +301,12 @@ def slot_templates():
     t["array_mixed"] = (2, lambda h: ["array", [["add", A_, h[0]], h[1][1]]])
     t["array_column"] = (1, lambda h: ["array", [A_, h[0][1]]])
     t["tuple_in"] = (4, lambda h: ["in", ["tuple", [["add", A_, h[0]], h[1]]], [["tuple", [h[2], h[3]]]]])
+    # JSON operators: the right operand (key / index / document) is a value like any other
+    t["json_get_index"] = (3, lambda h: ["eq", ["get_json_value", ["get_json_value", A_, h[0]], h[1]], h[2]])
+    t["json_get_text_index"] = (2, lambda h: ["eq", ["get_text_value", A_, h[0]], h[1]])
+    t["json_contains_doc"] = (1, lambda h: ["and", ["contains", A_, ["raw", {"k": 7301}]], ["eq", B_, h[0]]])
+    t["json_has_keys"] = (1, lambda h: ["and", ["has_any_keys", A_, ["raw", ["k1", "k2"]]], ["eq", B_, h[0]]])
+    t["json_path"] = (1, lambda h: ["eq", ["get_path_text_value", A_, ["raw", "{a,b}"]], h[0]])
     t["not"] = (2, lambda h: ["not", ["eq", ["add", A_, h[0]], h[1]]])
     t["neg"] = (2, lambda h: ["gt", ["neg", ["add", A_, h[0]]], h[1]])
     t["isnull"] = (2, lambda h: ["isnull", ["add", ["add", A_, h[0]], h[1]]])
@@ -365,6 +371,8 @@ def slot_cases():
             if name.startswith("array") and clause not in ("select", "insert_value", "set_value"):
                 continue
             for cls in CTXS:
+                if name.startswith("json_") and cls != "postgresql":
+                    continue  # -> ->> #>> @> ?| are PostgreSQL's operators; elsewhere they are not SQL (MySQL reads # as a comment)
                 yield {"family": "slots", "name": name, "clause": clause, "cls": cls}
                 # the same with negative numbers in every slot (the sign is where the inline and the parameterised form can part)
                 yield {"family": "slots", "name": name, "clause": clause, "cls": cls, "negative": True}
